@@ -143,6 +143,7 @@ DESCR = {
     "Filters/Str": "string filter bodies (23 filters)",
     "Filters/StrGlue": "string filters plugged into the call layer (lazy arguments)",
     "Filters/Arr": "array filter bodies (compact concat join map reverse sort sort_natural first last uniq), canonical sort form",
+    "Heap": "slice memory (C15/C03 no-write clause): `Store` of backing arrays, `SliceRef` arr/off/len/cap, programs `Prog` (read / write / alloc) with the interpreter `run` returning store and WRITE LOG; Go's `index`, element assignment, `reslice`, `make`, `append` (in place into spare capacity, else allocate), `copy`; `values.Convert(·, []any)` (a `[]any` without drops is passed through uncopied) and the bodies of compact concat join map reverse sort sort_natural first last uniq size default at that level; one filter application `stageF`, pipelines `runChain`; driver op `alias`",
     "TokenReSrc": "`parser.formTokenMatcher` as data (`StrExpr`, `TokenReSrc.pattern`: Sprintf/QuoteMeta/Join/range), `regexp.QuoteMeta`, the printer `Re.toGoSyntax` of the model's expressions in Go syntax (T4)",
     "Rex": "driver ops `rex`/`rexs`: decode an expression, print it, match it, answer like `FindStringSubmatchIndex`",
     "Generated/Writes": "written by translator T3 on every run: every store to a captured or package-level variable",
